@@ -401,10 +401,55 @@ def run(ctx):
     cg = prog.callgraph()
     roots = {f.key for f in prog.funcs.values() if f.name.endswith("_constraint") or f.name == "asn_check_constraints"}
     r6 = termination.rule_for(prog, "R08.6", "the constraint checkers", cg.reachable(roots), 8)
-    return [r1, r2, r3, r4, r08_5(prog), r6]
+    return [r1, r2, r3, r4, r08_5(prog), r6, r08_7(ctx.prog("K"))]
 
 
 GENERIC_CHECKERS = ("asn_generic_no_constraint", "asn_generic_unknown_constraint")
+
+
+def r08_7(progK):
+    """A generated checker does not delegate to the slot it occupies.  Where the code generator emits the text
+    `td->encoding_constraints.general_constraints(td, ...)` into the body of a checker function, `td` is whatever
+    descriptor the checker was installed in.  For a member-local checker (its emitted name starts with a literal
+    prefix, it goes into a member table and is called with the *member type's* descriptor) that is the type's own
+    checker; for the public `<Type>_constraint` (the name is all format arguments, and asn_DEF_<Type> names it in that
+    very slot) it is the function itself: asn_check_constraints never returns (stack exhaustion)."""
+    r = Rule("R08.7", "the code generator never emits a type-level checker that calls through its own descriptor slot", floor=1)
+    for f in sorted(progK.funcs.values(), key=lambda f: f.key):
+        if "libasn1compiler/" not in f.relfile:
+            continue
+        heads = []        # (block id, index, literal) of emitted checker headers
+        calls = []
+        for b, i, e in f.calls():
+            if e.get("callee") != "asn1c_compiled_output":
+                continue
+            for a in e.get("args", []):
+                t = strip_casts(a.get("tree"))
+                if not (isinstance(t, list) and t and t[0] == "str"):
+                    continue
+                if "_constraint" in t[1] and "(const asn_TYPE_descriptor_t *td" in t[1]:
+                    heads.append((b, i, t[1]))
+                if "general_constraints" in t[1] and "(td" in t[1] and "td->" in t[1]:
+                    calls.append((b, i, e, t[1]))
+        dom = f.dominators()
+        n = 0
+        for b, i, e, lit in calls:
+            n += 1
+            key = "emits-self-dispatch#%d" % n
+            # the header emitted on the way here (the nearest dominating one)
+            cands = [(hb, hi, hl) for hb, hi, hl in heads if (hb.id == b.id and hi < i) or (hb.id != b.id and hb.id in dom.get(b.id, ()))]
+            if not cands:
+                r.bad(f, key, "emits a call through td's own checker slot outside any emitted checker header", e["line"])
+                continue
+            hb, hi, hl = max(cands, key=lambda c: (len(dom.get(c[0].id, ())), c[1]))
+            prefix = hl.split("%", 1)[0].split("_constraint", 1)[0]
+            if prefix.strip():
+                r.ok(f, key, "emitted into a member-local checker (`%s...`): td is the member type's descriptor, whose checker is another function" % prefix.strip(), e["line"])
+            else:
+                r.bad(f, key, "emitted into the body of the public `<Type>_constraint`, which asn_DEF_<Type> names in the very slot the call goes "
+                              "through: for a constraint with nothing to check (INTEGER (MIN..-1 | 1..MAX), a BIT STRING value set) "
+                              "asn_check_constraints recurses until the stack is exhausted", e["line"])
+    return r
 
 
 def r08_5(prog):
